@@ -382,6 +382,13 @@ package types
 //@ func PurchaseOrderStatus.String(x) (r)
 //@   trusted generated code: proto.EnumName lookup in a constant table
 //@   pure
+//@   ensures r == poStatusName(x)
 //@ func WhitelistAction.String(x) (r)
 //@   trusted generated code: proto.EnumName lookup in a constant table
 //@   pure
+
+// decoding of a stored order and the (generated, constant) name table of the status enum, as seen by list queries
+//@ prelude
+//@ (define-fun decodePO ((b (Slice Int))) enterprise.EnterpriseUndPurchaseOrder (unmarshal.enterprise.EnterpriseUndPurchaseOrder b))
+//@ (declare-fun poStatusName (Int) Str)
+//@ end
